@@ -268,9 +268,9 @@ def C07(tier):
         "notify_order_checked": 30000,
         "site:dispatch_group_leave:3": 10000,   # zero transitions with waiters/notifications
         "site:_dispatch_group_wait_slow:0": 10000,
-        "rounds": 40000,
-        "round_waits_released": 20000,
-        "round_notifies_fired": 10000,
+        "rounds": 20000,   # seeded: 60810..112810 per quick run; the three floors halved after the C17 block_cases lesson (DESIGN 13.2)
+        "round_waits_released": 10000,
+        "round_notifies_fired": 5000,
     }
     rule = ("one case = one trial: 2-8 threads doing enter/leave, group_async, notify and wait (forever / timed on three clocks / "
             "zero timeout) on ONE group reused through thousands of zero transitions, under a perturbation profile at the library's "
